@@ -316,7 +316,12 @@ class XPathFunction(XPathToken):
         elif sequence_types[0] == '*':
             return True
 
-        signature = [x for x in self.sequence_types[:self.arity]]
+        if self.label in ('partial function', 'inline partial function'):
+            # the parameters that are still open: those at the placeholder positions
+            signature = [st for st, tk in zip(self.sequence_types, self._items)
+                         if tk.symbol == '?' and not tk]
+        else:
+            signature = [x for x in self.sequence_types[:self.arity]]
         signature.append(self.sequence_types[-1])
 
         if len(sequence_types) != len(signature):
